@@ -134,8 +134,16 @@ func (c *Ctx) groundHeap(name string, addr Term, valSort string) {
 }
 
 type epochInfo struct {
+	bound  int
+	parts  []epochPart // merge epoch
+	frame  bool        // allocation frame: equals the parent epoch's memory on objects older than frameB
+	parent int
+	frameB int
+}
+
+type frameRec struct {
+	old   Term
 	bound int
-	parts []epochPart // merge epoch
 }
 type epochPart struct {
 	reach Term
@@ -167,6 +175,15 @@ func (c *Ctx) epochMem(e int, name string) Term {
 			t = Ite(info.parts[i].reach, get(info.parts[i]), t)
 		}
 		t = c.Def("ep."+name, t)
+	} else if info.frame {
+		as := c.memSort[name]
+		var old Term
+		if info.parent == 0 {
+			old = c.memInit[name]
+		} else {
+			old = c.epochMem(info.parent, name)
+		}
+		t = c.framedCopy(name, as, old, info.frameB, info.bound)
 	} else {
 		as := c.memSort[name]
 		t = c.Fresh("hv."+name, as)
@@ -421,6 +438,7 @@ func (c *Ctx) cellRead(st *State, name, vs string, addr Term) Term {
 		return c.elemRead(st, name, vs, arr, idx)
 	}
 	fm := c.skipStores(c.memGet(st, name, vs), addr)
+	c.groundFrames(fm, addr)
 	flat := Select(fm, addr)
 	if vs == SRef && st.epoch == 0 {
 		if init, ok := c.memInit[name]; ok && init.S == fm.S {
@@ -438,6 +456,7 @@ func (c *Ctx) cellRead(st *State, name, vs string, addr Term) Term {
 func (c *Ctx) elemRead(st *State, name, vs string, arr, idx Term) Term {
 	en := "E" + name[1:]
 	m := c.skipStores(c.elemGet(st, en, vs), arr)
+	c.groundFrames(m, arr)
 	c.groundElem(en, arr, idx, vs)
 	c.groundCopies(m, idx, vs)
 	r := Select(Select(m, arr), idx)
@@ -540,7 +559,11 @@ func (c *Ctx) load(st *State, addr Term, t types.Type) *Val {
 		return v
 	case *types.Interface:
 		n := c.memName(t)
-		return &Val{K: KIface, Ty: t, Tag: c.cellRead(st, n+"#tag", SInt, addr), Pay: c.cellRead(st, n+"#pay", SRef, addr)}
+		iv := &Val{K: KIface, Ty: t, Tag: c.cellRead(st, n+"#tag", SInt, addr), Pay: c.cellRead(st, n+"#pay", SRef, addr)}
+		if c.inQuant == 0 {
+			c.Assume(st.reach, And(ILe(IntLitI(0), iv.Tag), Implies(Eq(iv.Tag, IntLitI(0)), Eq(iv.Pay, TNull))), "interface value in memory is well-formed")
+		}
+		return iv
 	case *types.Signature:
 		return scalar(c.cellRead(st, c.memName(t), SRef, addr), t)
 	}
@@ -767,6 +790,71 @@ func (c *Ctx) groundCopies(m Term, idx Term, vs string) {
 					c.groundCopies(cr.e, idx, vs)
 				}
 			}
+		}
+		m = rec.base
+	}
+}
+
+// framedCopy: a memory that agrees with `old` on every object allocated before frameB and is
+// unconstrained on younger objects (those a callee allocated). The agreement is instantiated at
+// reads (groundFrames).
+func (c *Ctx) framedCopy(name, as string, old Term, frameB, zeroB int) Term {
+	t := c.Fresh("fr."+name, as)
+	c.frameRecs[t.S] = frameRec{old, frameB}
+	_, vs := arrSorts(as)
+	if !strings.HasPrefix(name, "MAP") {
+		c.memAxioms(t, vs, zeroB, name)
+	}
+	return t
+}
+
+// allocFrame is applied after a call through a contract: objects the callee allocated (ids in
+// [frameB, frameB+gap)) have unconstrained contents; everything older keeps its value unless the
+// modifies clause already havocked it.
+func (c *Ctx) allocFrame(st *State) {
+	frameB := birthBase + c.nextObj + 1
+	c.nextObj += 256
+	zeroB := birthBase + c.nextObj + 1
+	for name, cur := range st.mem {
+		if strings.HasPrefix(name, "G_") {
+			continue
+		}
+		as, ok := c.memSort[name]
+		if !ok {
+			continue
+		}
+		st.mem[name] = c.framedCopy(name, as, cur, frameB, zeroB)
+	}
+	c.epochs = append(c.epochs, epochInfo{bound: zeroB, frame: true, parent: st.epoch, frameB: frameB})
+	st.epoch = len(c.epochs)
+}
+
+// groundFrames instantiates allocation-frame agreements at a read of root-owner `owner`
+// (the address for flat memories, the array for element memories).
+func (c *Ctx) groundFrames(m Term, owner Term) {
+	if c.inQuant > 0 {
+		return
+	}
+	for depth := 0; depth < 64; depth++ {
+		if parts, isMerge := c.mergeOf[m.S]; isMerge {
+			for _, p := range parts {
+				c.groundFrames(p, owner)
+			}
+			return
+		}
+		if fr, ok := c.frameRecs[m.S]; ok {
+			key := "gf|" + m.S + "|" + owner.S
+			if !c.assumed[key] {
+				c.assumed[key] = true
+				c.assumes = append(c.assumes, Assume{declPos: len(c.decls), why: "a call leaves the cells of previously allocated objects unchanged (instance)",
+					t: Implies(ILt(RefRoot(owner), IntLitI(int64(fr.bound))), Eq(Select(m, owner), Select(fr.old, owner)))})
+			}
+			m = fr.old
+			continue
+		}
+		rec, ok := c.storeOf[m.S]
+		if !ok {
+			return
 		}
 		m = rec.base
 	}
